@@ -303,6 +303,11 @@ def run(tier, seed, t0):
     core.check_deterministic(judge, {"name": "x", "payload": items[0]["payload"],
                                      "attempts": [["DF002", "zero"]]})
     st = core.pmap(_work, work, chunksize=4)
+    # assignment attempts under other interpreter configurations (-O, -OO, -W error, -X dev)
+    core.interpreter_modes("C14", [
+        {"name": it["name"], "payload": it["payload"], "source": src,
+         "attempts": [["payload", "zero"], ["ZZ_new_public", "zero"], ["DF002", "same"], ["_immutable", "false"]]}
+        for it in items[::7] for src in ("direct", "parse", "deepcopy")], st)
     st.extra["corpus_messages"] = len(items)
     return core.finish(
         "C14", tier, seed, LEVEL, st, RULE, t0,
